@@ -9,7 +9,13 @@ def key(d):
     return (m.group(2), int(m.group(1)), int(m.group(3)))
 for d in sorted([x for x in os.listdir(ROOT) if os.path.isdir(os.path.join(ROOT, x))], key=key):
     m = json.load(open(os.path.join(ROOT, d, "meta.json")))
-    first = "detected" if not m.get("checks_before_strengthening") and d not in FIX else "missed → " + FIX.get(d, "checks strengthened")
+    note = FIX.get(d, "checks strengthened")
+    if not m.get("checks_before_strengthening") and d not in FIX:
+        first = "detected (failing input)"
+    elif note.startswith(("first run:", "validated by hand")):
+        first = note
+    else:
+        first = "missed → " + note
     cut = lambda s, n: (s or "").replace("|", "/").replace("\n", " ")[:n]
     rows.append(f"| {d} | {cut(m.get('summary'), 150)} | {cut(m.get('needs'), 130)} | {first} | {','.join(m.get('detected_by') or []) or '**none**'} |")
 print("| id | change | needs | first run | caught by (quick tier) |")
